@@ -1,5 +1,350 @@
+"""Session-side executor for call histories (C20 and C16): builds one shared object graph from
+the explicit world spec (constructors and file loaders only, no modelling call) and executes
+modelling calls whose arguments are *references into that graph*."""
+import math
+import os
+from pathlib import Path
+
+import numpy
+
+from pyvaporation import (
+    Component,
+    Components,
+    Composition,
+    Conditions,
+    DiffusionCurve,
+    DiffusionCurveSet,
+    HeatCapacityConstants,
+    IdealExperiment,
+    IdealExperiments,
+    Measurements,
+    Membrane,
+    Mixture,
+    Mixtures,
+    NRTLParameters,
+    Permeance,
+    Pervaporation,
+    PervaporationFunction,
+    TemperatureProgram,
+    UNIQUACConstants,
+    UNIQUACParameters,
+    VaporPressureConstants,
+    VLEPoints,
+    find_best_fit,
+    fit,
+    fit_vle,
+    get_partial_pressures,
+)
+from pyvaporation.mixtures.mixture import calculate_activity_coefficients
+from pyvaporation.mixtures import uniquac_fitting
+from pyvaporation.optimizer.optimizer import Measurement
+
+from . import build
+from .canon import canon, cdigest, first_diff, plain
+
+
+class World:
+    pass
+
+
+def _component(W, ref):
+    if "builtin" in ref:
+        return getattr(Components, ref["builtin"])
+    return W.components[ref["custom"]]
+
+
+def _mixture(W, ref):
+    if "builtin" in ref:
+        return getattr(Mixtures, ref["builtin"])
+    return W.mixtures[ref["custom"]]
+
+
+def build_world(root, spec):
+    W = World()
+    W.components = []
+    for c in spec.get("custom_components", []):
+        uq = c.get("uq")
+        W.components.append(Component(
+            name=c["name"], molecular_weight=c["mw"],
+            vapour_pressure_constants=VaporPressureConstants(a=c["vp"]["a"], b=c["vp"]["b"], c=c["vp"]["c"], type=c["vp"]["type"]),
+            heat_capacity_constants=HeatCapacityConstants(a=c["hc"][0], b=c["hc"][1], c=c["hc"][2], d=c["hc"][3]),
+            uniquac_constants=None if uq is None else UNIQUACConstants(r=uq[0], q_geometric=uq[1], q_interaction=uq[2]),
+        ))
+    W.mixtures = []
+    for m in spec.get("custom_mixtures", []):
+        n, u = m.get("nrtl"), m.get("uniquac")
+        W.mixtures.append(Mixture(
+            name=m["name"], first_component=_component(W, m["first"]), second_component=_component(W, m["second"]),
+            nrtl_params=None if n is None else NRTLParameters(g12=n["g12"], g21=n["g21"], alpha12=n["alpha12"], alpha21=n.get("alpha21"),
+                                                              a12=n.get("a12", 0), a21=n.get("a21", 0)),
+            uniquac_params=None if u is None else UNIQUACParameters(alpha_12=u[0], alpha_21=u[1], beta_12=u[2], beta_21=u[3], z=u[4]),
+        ))
+    W.compositions = [build.composition(c) for c in spec.get("compositions", [])]
+    W.permeances = [build.permeance(p) for p in spec.get("permeances", [])]
+    W.perm_tuples = [(W.permeances[i], W.permeances[j]) for i, j in spec.get("perm_tuples", [])]
+    W.programs = [build.program(p) for p in spec.get("programs", [])]
+    W.conditions = []
+    for c in spec.get("conditions", []):
+        W.conditions.append(Conditions(
+            membrane_area=c["area"], initial_feed_temperature=c["T"], initial_feed_amount=c["amount"],
+            initial_feed_composition=W.compositions[c["comp_ref"]], permeate_temperature=c.get("pt"),
+            permeate_pressure=c.get("pp"),
+            temperature_program=None if c.get("program_ref") is None else W.programs[c["program_ref"]],
+        ))
+    W.comp_lists = [[W.compositions[i] for i in idxs] for idxs in spec.get("comp_lists", [])]
+    W.membranes = []
+    for m in spec.get("membranes", []):
+        if m.get("constructed"):
+            exps = []
+            for e in m["experiments"]:
+                exps.append(IdealExperiment(name=m["dir"], temperature=e["T"], component=_component(W, e["component"]),
+                                            permeance=build.permeance(e["permeance"]), activation_energy=e.get("ea")))
+            W.membranes.append(Membrane(name=m["dir"], ideal_experiments=IdealExperiments(experiments=exps)))
+        else:
+            W.membranes.append(build.load_membrane(root, m["dir"]))
+    W.curve_sets = []
+    for ref in spec.get("curve_sets", []):
+        W.curve_sets.append(build.curve_set(W.membranes[ref[0]], ref[1]))
+    W.curves = []
+    for c in spec.get("curves", []):
+        if "from_set" in c:
+            W.curves.append(W.curve_sets[c["from_set"]].diffusion_curves[c["index"]])
+        else:
+            kw = dict(mixture=_mixture(W, c["mixture"]), membrane_name=c.get("membrane_name", "hand"), feed_temperature=c["T"],
+                      feed_compositions=[W.compositions[i] for i in c["comp_refs"]] if "comp_refs" in c else [build.composition(x) for x in c["comps"]],
+                      permeate_temperature=c.get("pt"), permeate_pressure=c.get("pp"), comments=c.get("comments"))
+            if c.get("fluxes") is not None:
+                kw["partial_fluxes"] = [tuple(f) for f in c["fluxes"]]
+            if c.get("perm_tuple_refs") is not None:
+                kw["permeances"] = [W.perm_tuples[i] for i in c["perm_tuple_refs"]]
+            W.curves.append(DiffusionCurve(**kw))
+    W.measurements = []
+    for ms in spec.get("measurements", []):
+        if "points" in ms:
+            W.measurements.append(build.measurements(ms["points"]))
+        else:
+            cs = W.curve_sets[ms["from_set"]]
+            pts = []
+            for curve in cs.diffusion_curves:   # harness' own extraction loop (the library extractors are ops)
+                for i in range(len(curve.feed_compositions)):
+                    pts.append(Measurement(x=curve.feed_compositions[i].first, t=curve.feed_temperature, p=curve.permeances[i][ms["component"]].value))
+            W.measurements.append(Measurements(data=pts))
+    W.functions = [build.function(f) for f in spec.get("functions", [])]
+    W.vle = [VLEPoints.from_csv(Path(os.path.join(root, "vle", name))) for name in spec.get("vle", [])]
+    W.pvs = [Pervaporation(membrane=W.membranes[p[0]], mixture=_mixture(W, p[1])) for p in spec.get("pvs", [])]
+    W.scalars = {}
+    return W
+
+
+SNAP_POOLS = ["components", "mixtures", "compositions", "permeances", "perm_tuples", "programs", "conditions", "comp_lists",
+              "membranes", "curve_sets", "curves", "measurements", "functions", "vle", "pvs"]
+
+
+def snapshot_trees(W):
+    out = {"builtin.Mixtures": canon(Mixtures), "builtin.Components": canon(Components)}
+    for pool in SNAP_POOLS:
+        for i, obj in enumerate(getattr(W, pool)):
+            out["%s[%d]" % (pool, i)] = canon(obj)
+    return out
+
+
+def independent_eval(f, x, t):
+    """alpha * exp(sum a_i x^(i+1) - sum b_i x^i / T) with math.fsum; returns (value, sum|terms|)."""
+    terms = [float(f.a[i]) * (x ** (i + 1)) for i in range(len(f.a))]
+    terms += [-float(f.b[i]) * (x ** i) / t for i in range(len(f.b))]
+    e = math.fsum(terms)
+    try:
+        v = float(f.alpha) * math.exp(e)
+    except OverflowError:
+        v = math.copysign(math.inf, float(f.alpha))
+    return v, math.fsum(abs(z) for z in terms)
+
+
+def independent_loss(f, points):
+    tot = []
+    for (x, t, p) in points:
+        v, _ = independent_eval(f, x, t)
+        tot.append((v - p) ** 2)
+    try:
+        return math.fsum(tot)
+    except (OverflowError, ValueError):
+        return math.inf
+
+
 class Executor:
     def __init__(self, init):
-        pass
+        self.root = init["root"]
+        self.spec = init["world"]
+        self.prop = init["prop"]
+        self.W = build_world(self.root, self.spec)
+        self.snap0 = snapshot_trees(self.W)
+        self.snap0_digests = {k: cdigest(v) for k, v in self.snap0.items()}
+        self.last = None
+
     def describe(self):
-        return {}
+        return {"world_digest": cdigest(sorted(self.snap0_digests.items())), "items": len(self.snap0_digests)}
+
+    def prepare(self, op):
+        return None
+
+    # ---- argument resolution -----------------------------------------------------------
+    def R(self, v):
+        """Resolve references: {"$": [pool, index]} -> shared object; {"$c": ref} component; {"$m": ref} mixture;
+        {"$list": [...]} -> fresh list of resolved; {"$tuple": [...]}"""
+        W = self.W
+        if isinstance(v, dict):
+            if "$" in v:
+                return getattr(W, v["$"][0])[v["$"][1]]
+            if "$c" in v:
+                return _component(W, v["$c"])
+            if "$m" in v:
+                return _mixture(W, v["$m"])
+            if "$list" in v:
+                return [self.R(x) for x in v["$list"]]
+            if "$tuple" in v:
+                return tuple(self.R(x) for x in v["$tuple"])
+            if "$array" in v:
+                return numpy.array(v["$array"], dtype=float)
+            if "$new_comp" in v:
+                return build.composition(v["$new_comp"])
+            if "$new_perm" in v:
+                return build.permeance(v["$new_perm"])
+            return {k: self.R(x) for k, x in v.items()}
+        if isinstance(v, list):
+            return [self.R(x) for x in v]
+        return v
+
+    def execute(self, op, prep):
+        fn = op["fn"]
+        a = {k: self.R(v) for k, v in (op.get("args") or {}).items()}
+        try:
+            res = self._call(fn, op, a)
+        except Exception as e:
+            self.last = None
+            return {"kind": "exc", "exc": type(e).__name__, "msg": str(e)[:200]}
+        tree = canon(res, numeric=True)
+        self.last = res
+        out = {"kind": "ok", "digest": cdigest(tree), "tree": tree}
+        extra = self._derived(fn, op, res)
+        if extra:
+            out["derived"] = extra
+        return out
+
+    def after(self, op, out):
+        cur = snapshot_trees(self.W)
+        changed = []
+        for k in sorted(cur):
+            if k not in self.snap0_digests or cdigest(cur[k]) != self.snap0_digests[k]:
+                d = first_diff(self.snap0.get(k), cur[k], k)
+                changed.append({"item": k, "path": d[0] if d else k, "before": d[1] if d else None, "after": d[2] if d else None})
+        for k in sorted(self.snap0_digests):
+            if k not in cur:
+                changed.append({"item": k, "path": k, "before": "present", "after": "absent"})
+        return {"snapshot_changed": changed[:5]}
+
+    def query(self, msg):
+        return {"kind": "ok"}
+
+    # ---- derived data for C16 oracles (harness code, independent formula) ----------------
+    def _derived(self, fn, op, res):
+        d = {}
+        if isinstance(res, PervaporationFunction):
+            grid = op.get("grid")
+            if grid:
+                vals = []
+                for (x, t) in grid:
+                    try:
+                        lib = float(res(x, t))
+                    except Exception as e:
+                        lib = "exc:" + type(e).__name__
+                    ind, mag = independent_eval(res, x, t)
+                    vals.append([x, t, lib, ind, mag])
+                d["grid"] = vals
+            lp = op.get("loss_on")
+            if lp is not None:
+                pts = self.spec["measurements"][lp].get("points")
+                if pts is None:
+                    pts = [[plain(m.x), plain(m.t), plain(m.p)] for m in self.W.measurements[lp].data]
+                d["loss"] = independent_loss(res, pts)
+                d["n_points"] = len(pts)
+            d["fn"] = build.view_fn(res)
+        if fn == "fit_vle" and op.get("objective_on") is not None:
+            try:
+                params = [res.alpha_12, res.alpha_21, res.beta_12, res.beta_21, res.z]
+                d["objective"] = float(uniquac_fitting.objective(self.W.vle[op["objective_on"]], params))
+            except Exception as e:
+                d["objective"] = "exc:" + type(e).__name__
+        return d
+
+    # ---- the calls ---------------------------------------------------------------------
+    def _call(self, fn, op, a):
+        W = self.W
+        if fn == "flux_from_permeate":
+            return a.pop("pv").get_partial_fluxes_from_permeate_composition(**a)
+        if fn == "partial_fluxes":
+            return a.pop("pv").calculate_partial_fluxes(**a)
+        if fn == "permeate_composition":
+            return a.pop("pv").calculate_permeate_composition(**a)
+        if fn == "separation_factor":
+            return a.pop("pv").calculate_separation_factor(**a)
+        if fn == "ideal_diffusion_curve":
+            return a.pop("pv").ideal_diffusion_curve(**a)
+        if fn == "non_ideal_diffusion_curve":
+            return a.pop("pv").non_ideal_diffusion_curve(**a)
+        if fn in ("ideal_isothermal_process", "ideal_non_isothermal_process", "non_ideal_isothermal_process", "non_ideal_non_isothermal_process"):
+            pm = getattr(a.pop("pv"), fn)(**a)
+            if op.get("then"):
+                return {"model": pm, "metrics": {m: getattr(pm, m) for m in op["then"]}}
+            return pm
+        if fn == "get_permeance":
+            return a.pop("membrane").get_permeance(**a)
+        if fn == "calculate_activation_energy":
+            return a.pop("membrane").calculate_activation_energy(**a)
+        if fn == "get_ideal_selectivity":
+            return a.pop("membrane").get_ideal_selectivity(**a)
+        if fn == "get_estimated_pure_component_flux":
+            return a.pop("membrane").get_estimated_pure_component_flux(**a)
+        if fn == "get_penetrant_data":
+            return a.pop("membrane").get_penetrant_data(**a)
+        if fn == "get_partial_pressures":
+            return get_partial_pressures(**a)
+        if fn == "calculate_activity_coefficients":
+            return calculate_activity_coefficients(**a)
+        if fn == "to_molar":
+            return a["composition"].to_molar(a["mixture"])
+        if fn == "to_weight":
+            return a["composition"].to_weight(a["mixture"])
+        if fn == "permeance_convert":
+            return a["permeance"].convert(to_units=a["to_units"], component=a.get("component"))
+        if fn == "permeance_add":
+            return a["left"] + a["right"]
+        if fn == "component_method":
+            return getattr(a["component"], op["method"])(*a.get("params", []))
+        if fn == "program":
+            return a["program"].program(a["time"])
+        if fn == "measurements_from":
+            return getattr(Measurements, op["method"])(a["source"])
+        if fn == "fit":
+            return fit(**a)
+        if fn == "find_best_fit":
+            return find_best_fit(**a)
+        if fn == "fit_vle":
+            return fit_vle(**a)
+        if fn == "fn_call":
+            return [a["function"](x, t) for (x, t) in op["grid_args"]]
+        if fn == "fn_mul":
+            f = a["function"]
+            g = f * a["constant"]
+            out = {"product": g}
+            if op.get("grid"):
+                out["values"] = [[float(f(x, t)), float(g(x, t))] for (x, t) in op["grid"]]
+            return out
+        if fn == "fn_from_array":
+            return PervaporationFunction.from_array(array=a["array"], n=a["n"], m=a["m"])
+        if fn == "make_curve":
+            return DiffusionCurve(**a)
+        if fn == "curve_metric":
+            return getattr(a["curve"], op["method"])
+        if fn == "measurements_add":
+            return a["left"] + a["right"]
+        raise RuntimeError("unknown entry point %r" % (fn,))
